@@ -7,9 +7,11 @@
                   must behave alike)
      Upsert id v p ok | UpsertBatch items ok | Delete id ok | Optimize ok
      Get id -> ok v p          v = index of the returned vector in VecTable, 0 = nil or not a table vector
-     Query q k f -> ok hits    hits = <<[id, sd, p]>>, sd = round(score * NormSq): the dot product the score claims
+     Query q k f -> ok hits    hits = << <<id, sd, p>> >>, sd = round(score * NormSq): the dot product the score claims
      Observe gets queries      a run of Get/Query lines packed into one *)
 EXTENDS VectorStore
+
+CONSTANT SkipRejected
 
 VARIABLE l          \* next trace line to consume
 
@@ -33,29 +35,51 @@ TraceSetup == /\ IsEv("Setup") /\ hist = <<>> /\ E.buf \in {0, 1, 2}
               /\ buf' = E.buf
               /\ UNCHANGED <<content, tmp, idx, ver, want, broken, hist>>
 
+\* compact encodings: item = <<id, v, p>>, hit = <<id, sd, p>>, packed get = <<id, ok, v, p>>,
+\* packed query = <<q, k, f, ok, hits>>
 Items(s) == [i \in 1..Len(s) |-> <<s[i][1], s[i][2], s[i][3]>>]
-Hits(s)  == [i \in 1..Len(s) |-> [id |-> s[i].id, sd |-> s[i].sd, p |-> s[i].p]]
+Hits(s)  == [i \in 1..Len(s) |-> [id |-> s[i][1], sd |-> s[i][2], p |-> s[i][3]]]
 
-\* the history is not needed here: keep it short (only its last record is read, by NoResurrection/IsOptimizeStep)
 TUpsert   == IsEv("Upsert") /\ Upsert(E.id, E.v, E.p, E.ok)
 TBatch    == IsEv("UpsertBatch") /\ UpsertBatch(Items(E.items), E.ok)
 TDelete   == IsEv("Delete") /\ Delete(E.id, E.ok)
 TOptimize == IsEv("Optimize") /\ Optimize(E.ok)
-TGet      == IsEv("Get") /\ Get(E.id, E.ok, E.v, E.p)
-TQuery    == IsEv("Query") /\ Query(E.q, E.k, E.f, E.ok, Hits(E.hits))
-                           /\ (~(FConsolidateTombstones \/ FBufferBlind) => HitsOK(E.q, E.k, E.f, Hits(E.hits)))
+Strict == ~(FConsolidateTombstones \/ FBufferBlind)
 
-\* all reads the driver made after one mutating call, as one line (the check script packs them; a rejected
-\* Observe line is unpacked into its Get/Query lines and validated again to name the call that disagrees)
-TObserve  == /\ IsEv("Observe") /\ ~broken
-             /\ \A i \in 1..Len(E.gets) : LET g == E.gets[i] IN GetMatches(g.id, g.ok, g.v, g.p)
-             /\ \A i \in 1..Len(E.queries) :
-                   LET x == E.queries[i] IN
-                   /\ QueryMatches(x.q, x.k, x.f, x.ok, Hits(x.hits))
-                   /\ (~(FConsolidateTombstones \/ FBufferBlind) => HitsOK(x.q, x.k, x.f, Hits(x.hits)))
-             /\ UNCHANGED vars
+\* reads: Get, Query, or all reads the driver made after one mutating call packed into one Observe line (the check
+\* script packs them; a rejected Observe line is validated again unpacked to name the call that disagrees)
+ReadOK ==
+  CASE E.ev = "Get"   -> GetMatches(E.id, E.ok, E.v, E.p)
+    [] E.ev = "Query" -> LET h == Hits(E.hits) IN
+                         QueryMatches(E.q, E.k, E.f, E.ok, h) /\ (Strict => HitsOK(E.q, E.k, E.f, h))
+    [] OTHER          ->
+         LET C == Cands IN
+         /\ \A i \in 1..Len(E.gets) : LET g == E.gets[i] IN GetMatches(g[1], g[2], g[3], g[4])
+         /\ \A i \in 1..Len(E.queries) :
+               LET x == E.queries[i] h == Hits(x[5]) IN
+               /\ QueryMatchesOver(C, x[1], x[2], x[3], x[4], h)
+               /\ (Strict => HitsOK(x[1], x[2], x[3], h))
 
-TraceNext == TraceReset \/ TraceSetup \/ TUpsert \/ TBatch \/ TDelete \/ TOptimize \/ TGet \/ TQuery \/ TObserve
+\* Bulk mode (SkipRejected): a line that is not a step of the model is reported (<<"REJ", line>>) and the rest of
+\* that trace is skipped, so that one TLC run judges all traces of a file.  With SkipRejected = FALSE the run
+\* stops at the first such line (HWM protocol of vlib.validate_traces).
+NextReset == CHOOSE j \in (l + 1)..(Len(Trace) + 1) :
+                /\ (j = Len(Trace) + 1 \/ Trace[j].ev = "Reset")
+                /\ \A i \in (l + 1)..(j - 1) : Trace[i].ev # "Reset"
+Reject == SkipRejected /\ PrintT(<<"REJ", l>>) /\ l' = NextReset
+
+\* = Get / Query of VectorStore (stuttering steps guarded by GetMatches / QueryMatches), evaluated once per line
+TRead == /\ l <= Len(Trace) /\ E.ev \in {"Get", "Query", "Observe"}
+         /\ IF ~broken /\ (ReadOK = TRUE) THEN l' = l + 1 ELSE Reject
+         /\ UNCHANGED vars
+
+Mutating == TraceSetup \/ TUpsert \/ TBatch \/ TDelete \/ TOptimize
+TSkip == /\ l <= Len(Trace) /\ E.ev \notin {"Reset", "Get", "Query", "Observe"}
+         /\ ~ENABLED Mutating
+         /\ Reject
+         /\ UNCHANGED vars
+
+TraceNext == TraceReset \/ Mutating \/ TRead \/ TSkip
 
 TraceSpec == TraceInit /\ [][TraceNext]_tvars
 
